@@ -363,6 +363,18 @@ def run(ctx):
                 r.ok("same_fs", "is_same_file_system == false ⇒ visited but not descended", fn=ro)
         else:
             r.bad("same_fs", "anchor-missing: device check in run_one", fn=ro)
+        # ... and when the device of a directory cannot be determined, walkdir yields the error *in place of* the entry
+        if sfs:
+            s_e = seed_after_call(ro, sfs[0], V("Err", None))
+            ok_visits = [c for c in ro.calls() if (c.func.get("trait") or "").endswith("ParallelVisitor") and c.func.get("name") == "visit" and
+                         any(x.k == "agg" and x[2] == "Ok" for x in walk(ebr.operand(c.args[1])))]
+            late = [c for c in ok_visits if c.bb in s_e.exec_blocks]
+            if late:
+                r.bad("same_fs|error", "when is_same_file_system fails, Worker::run_one reports the error and then the entry as well; "
+                      "the serial walker (walkdir) yields the error instead of the entry, so the two walkers disagree on the set "
+                      "of entries", fn=ro, loc=late[0].loc, construct="same_fs")
+            else:
+                r.ok("same_fs|error", "device unknown ⇒ the error stands in for the entry, as in walkdir", fn=ro)
         # ... and the device a root's subtree is pinned to is that root's own: looked up in the very loop iteration that hands
         # the root out (walkdir does the same per WalkDir). A device carried over from an earlier root prunes (or follows)
         # the wrong directories as soon as two roots lie on different file systems.
